@@ -66,6 +66,28 @@ def mutate(chk, c, msg, mod, n=4):
     return done
 
 
+def build_unread(chk, c, mod, n=5):
+    """a message built through the API only (discriminator switches, optional sets, array growth ...) whose attributes
+    are never read and which is never encoded before it is copied: the operations are mirrored on a twin, and only
+    the twin is read (reading or encoding a message materialises default sub-objects and would hide lazy-copy bugs)"""
+    a, twin = c.cls(), c.cls()
+    state = V.readback(twin, c.tree)
+    done = 0
+    for _ in range(n * 4):
+        op = api.gen_op(chk.rng, c.tree, state)
+        if op is None:
+            continue
+        if api.run_op(twin, c.tree, op, mod) is None:
+            api.run_op(a, c.tree, op, mod)
+            new = V.readback(twin, c.tree)
+            if new != state:
+                done += 1
+                state = new
+                if done >= n:
+                    break
+    return a, state
+
+
 def run_c11(tier):
     chk = core.Check('C11', tier)
     chk.rule = ('for every message type several pairs (a, b) of random values (absent / present optional composites, limited and dynamic '
@@ -124,6 +146,21 @@ def run_c11(tier):
                         chk.property_violation(casej, {'what': 'mutating the copy changed the source'})
                 rows.append((casej, b_state, shared))
                 reqs.append({'op': 'py_copy', 't': c.tid, 'v': av})
+            # sources that were built by operations only and never read before the copy
+            for _ in range(chk.scale(3, 8)):
+                a, want = build_unread(chk, c, mod)
+                b = make(c, V.gen_value(chk.rng, c.tree)) if chk.rng.random() < 0.5 else c.cls()
+                casej = {'schema': c.text, 'type': c.name, 'a': want, 'built': 'by API operations, never read before the copy'}
+                chk.count((c.tree, json.dumps(want, sort_keys=True, default=str), 'unread'), True)
+                chk.bump('unread-source')
+                try:
+                    b.copy_from(a)
+                except Exception as ex:  # noqa
+                    chk.property_violation(casej, {'what': 'copy_from raised %s: %s' % (py_impl.exc_class(ex), str(ex)[:200])})
+                    continue
+                b_state, a_state = V.readback(b, c.tree), V.readback(a, c.tree)
+                if b_state != want or a_state != want:
+                    chk.property_violation(casej, {'what': 'after b.copy_from(a) the field values differ', 'a': a_state, 'b': b_state, 'expected': want})
             # extend() of composite arrays copies the elements
             if c.tree['k'] == 'struct':
                 for i, m in enumerate(c.tree['ms']):
